@@ -143,7 +143,7 @@ def correspond(ctx):
         seen.add(key)
         ctxs = [("", "")]
         if rng.random() < 0.5:
-            ctxs.append((rng.choice(["", "x", "9-"]), rng.choice(["", "0", "z", "-", "7+", ".", "٣", "/"])))
+            ctxs.append((rng.choice(["", "x", "9-", "A"]), rng.choice(["", "0", "z", "-", "7+", ".", "٣", "/", "A", "Fg", "_"])))
         for pre, rest in ctxs:
             s = pre + t + rest
             starts = {len(pre)} | ({rng.randint(0, len(s))} if rng.random() < 0.3 else set())
@@ -257,6 +257,11 @@ def search(ctx, why):
     for n in range(0, 4):
         for v in itertools.product(alpha, repeat=n):
             _check_value(found, "seq:roundtrip", ps.Seq(base(), n), "Seq(OneOf(Spaces(0,'g'),HexInt()),%d)" % n, list(v), list(v), 1, 1)
+    up = lambda: ps.OneOf(ps.Spaces(-1, "g"), ps.HexInt(), ps.Dict(["wall", "star"], ["A", "B"]))
+    for n in range(0, 4):
+        for v in itertools.product([-1, 11, "wall", "star", 4095], repeat=n):
+            _check_value(found, "oneof:tokens-outside-0-9a-z", ps.Seq(up(), n),
+                         "Seq(OneOf(Spaces(-1,'g'),HexInt(),Dict(['wall','star'],['A','B'])),%d)" % n, list(v), list(v), 1, 1)
     for n in (20, 21, 22, 41, 42, 43):
         _check_value(found, "spaces:run-limit", ps.Seq(base(), n), "Seq(OneOf(Spaces(0,'g'),HexInt()),%d)" % n, [0] * n, [0] * n, 1, 1)
     for b, d in ((2, 5), (3, 3), (6, 2)):
